@@ -210,6 +210,10 @@ func (b *Buffer) ServeHTTP(w http.ResponseWriter, req *http.Request) {
 		if (b.retryPredicate == nil || attempt > DefaultMaxRetryAttempts) ||
 			!b.retryPredicate(&context{r: req, attempt: attempt, responseCode: bw.code}) {
 			utils.CopyHeaders(w.Header(), bw.Header())
+			if bw.code == 0 {
+				// the handler wrote without choosing a status: that means 200, as in net/http
+				bw.code = http.StatusOK
+			}
 			w.WriteHeader(bw.code)
 			if reader != nil {
 				_, _ = io.Copy(w, reader)
